@@ -22,6 +22,9 @@ type WindowRes struct {
 	Viol    []Violation
 	Runs    int
 	Parked  int
+	// B requests that could not run inside the window because the parked
+	// request holds a server-wide lock (cross-directory renames serialise)
+	Serialized int
 	Keys    map[string]bool
 	Sample  []string
 }
@@ -45,7 +48,7 @@ func runWindow(seed uint64, cas int, tier string) *WindowRes {
 		{"LOOKUP d1/..", func(w map[string][]byte) *Op { return &Op{K: OpLookup, H: w["d1"], Name: ".."} }},
 		{"RMDIR d2/low", func(w map[string][]byte) *Op { return &Op{K: OpRmdir, H: w["d2"], Name: "low"} }},
 	}
-	nscripts := 9
+	nscripts := 10
 	idx := 0
 	for ai := range aops {
 		for sc := 0; sc < nscripts; sc++ {
@@ -140,6 +143,8 @@ func oneWindow(seed uint64, aname string, aop func(map[string][]byte) *Op, scrip
 		B = []*Op{{K: OpSetattr, H: w["a"], SetSize: true, Size: 10}, {K: OpWrite, H: w["a"], Off: 5, Count: 100, DataLen: 100, Uid: 777, Stable: 2}}
 	case 7: // both names swap
 		B = []*Op{{K: OpRename, H: d1, Name: "a", H2: d1, Name2: "tmp"}, {K: OpRename, H: d1, Name: "c2", H2: d1, Name2: "a"}, {K: OpRename, H: d1, Name: "tmp", H2: d1, Name2: "c2"}}
+	case 9: // like 3, without any cross-directory rename (those serialise with a parked cross-directory RENAME)
+		B = []*Op{{K: OpRemove, H: d1, Name: "a"}, {K: OpRemove, H: d1, Name: "c2"}, {K: OpRmdir, H: root, Name: "d1"}, {K: OpMkdir, H: root, Name: "e"}}
 	case 8: // the sub-directory is replaced
 		B = []*Op{{K: OpRmdir, H: d2, Name: "low"}, {K: OpMkdir, H: d2, Name: "low"}}
 	}
@@ -175,25 +180,48 @@ func oneWindow(seed uint64, aname string, aop func(map[string][]byte) *Op, scrip
 		viol("hang", "request A neither reached its abort nor returned within 30 s\n%s", allStacks())
 		emitAndExit(windowJobRes(res))
 	}
-	mon.SetClient(2)
-	for i, op := range B {
-		if script == 3 && i == len(B)-1 {
-			// the new directory has just been created: move the child into it
-			// under the old name
-		}
+	// A B request runs in its own goroutine: if it makes no progress for a
+	// while (the parked request holds a server-wide lock that B needs: two
+	// cross-directory renames serialise) the window is closed early, A runs
+	// to completion and B continues after it.  This only changes the
+	// schedule; the verdict is the linearizability of whatever history results.
+	gateOpen := false
+	runB := func(op *Op) *Res {
 		op.Materialize()
 		ho := &histOp{Client: 1, Op: op, Kind: "op"}
-		ho.Call = tick()
-		ho.Res = doOp(srv.API, op)
-		ho.Ret = tick()
+		ch := make(chan struct{})
+		go func() {
+			mon.SetClient(2)
+			ho.Call = tick()
+			ho.Res = doOp(srv.API, op)
+			ho.Ret = tick()
+			close(ch)
+		}()
+		select {
+		case <-ch:
+		case <-time.After(400 * time.Millisecond):
+			if !gateOpen && parked {
+				gateOpen = true
+				res.Serialized++
+				mon.OpenGate()
+			}
+			<-ch // the watchdog covers a request that never returns
+		}
+		hmu.Lock()
 		hist = append(hist, ho)
-		if script == 3 && op.K == OpMkdir && ho.Res.Stat == stOK {
-			mv := &Op{K: OpRename, H: root, Name: "t", H2: ho.Res.FH, Name2: "a"}
-			h2 := &histOp{Client: 1, Op: mv, Kind: "op"}
-			h2.Call = tick()
-			h2.Res = doOp(srv.API, mv)
-			h2.Ret = tick()
-			hist = append(hist, h2)
+		hmu.Unlock()
+		return ho.Res
+	}
+	for _, op := range B {
+		r := runB(op)
+		if (script == 3 || script == 9) && op.K == OpMkdir && r.Stat == stOK {
+			// the new directory has just been created: put a child into it
+			// under the old name
+			if script == 3 {
+				runB(&Op{K: OpRename, H: root, Name: "t", H2: r.FH, Name2: "a"})
+			} else {
+				runB(&Op{K: OpCreate, H: r.FH, Name: "a"})
+			}
 		}
 	}
 	mon.OpenGate()
@@ -246,7 +274,7 @@ func oneWindow(seed uint64, aname string, aop func(map[string][]byte) *Op, scrip
 }
 
 func windowJobRes(r *WindowRes) *JobRes {
-	out := &JobRes{Viol: r.Viol, Evals: r.Runs, Counters: Counter{"window_runs": r.Runs, "window_runs_where_A_was_parked_at_an_abort": r.Parked}, Distinct: sortedKeys(r.Keys)}
+	out := &JobRes{Viol: r.Viol, Evals: r.Runs, Counters: Counter{"window_runs": r.Runs, "window_runs_where_A_was_parked_at_an_abort": r.Parked, "window_runs_closed_early(B needs a lock the parked request holds)": r.Serialized}, Distinct: sortedKeys(r.Keys)}
 	if r.Parked == 0 {
 		out.Distinct = nil
 	}
